@@ -7,7 +7,7 @@ SPEC = {
     "lean_modules": ["TrustVerif.Props.C03"],
     "translators": [translate_faults],
     "tiers": {
-        "quick": {"cases": 700, "extra": {"cycles": 3}},
+        "quick": {"cases": 2000, "extra": {"cycles": 3}},
         "thorough": {"cases": 30000, "extra": {"cycles": 4}},
     },
     # a model/implementation disagreement is first of all a question about the model; the failing
